@@ -19,6 +19,7 @@ type expiryManager struct {
 	timer          *time.Timer // Schedules expiration of docs
 	nextExp        *uint32     // Timestamp when expTimer will run (0 if never)
 	expirationFunc func()      // Function to call when timer expires
+	stopped        bool        // Set by stop(): the bucket's database is going away, nothing may be scheduled or run any more
 }
 
 func newExpirationManager(expiractionFunc func()) *expiryManager {
@@ -34,6 +35,7 @@ func newExpirationManager(expiractionFunc func()) *expiryManager {
 func (e *expiryManager) stop() {
 	e.mutex.Lock()
 	defer e.mutex.Unlock()
+	e.stopped = true
 	if e.timer != nil {
 		e.timer.Stop()
 	}
@@ -60,6 +62,10 @@ func (e *expiryManager) _clearNext() {
 // setNext sets the next expiration time and schedules an expiration to occur after that time. Requires caller to have acquired mutex.
 func (e *expiryManager) _setNext(exp uint32) {
 	debug("_setNext(%d)", exp)
+	if e.stopped {
+		// a write that raced with the shutdown must not re-arm the timer on a closed database
+		return
+	}
 	e.nextExp = &exp
 	if exp == 0 {
 		e.timer = nil
@@ -105,5 +111,9 @@ func (e *expiryManager) runExpiry() {
 	e.mutex.Lock()
 	defer e.mutex.Unlock()
 	verifPoint("expiry.locked")
+	if e.stopped {
+		// the timer fired while (or just before) the bucket was shut down
+		return
+	}
 	e.expirationFunc()
 }
